@@ -278,6 +278,113 @@ def coq_group(i, res, maxlen):
     return (defs, [t for _, t in terms]), [k for k, _ in terms]
 
 
+def parse_coq_value(text):
+    """Parse a printed Gallina value made of lists, pairs, strings, bools."""
+    pos = [0]
+
+    def ws():
+        while pos[0] < len(text) and text[pos[0]].isspace():
+            pos[0] += 1
+
+    def val():
+        ws()
+        c = text[pos[0]]
+        if c == '[':
+            pos[0] += 1
+            out = []
+            ws()
+            if text[pos[0]] == ']':
+                pos[0] += 1
+                return out
+            while True:
+                out.append(val())
+                ws()
+                if text[pos[0]] == ';':
+                    pos[0] += 1
+                    continue
+                assert text[pos[0]] == ']', text[pos[0]:pos[0] + 20]
+                pos[0] += 1
+                return out
+        if c == '(':
+            pos[0] += 1
+            a = val()
+            ws()
+            assert text[pos[0]] == ',', text[pos[0]:pos[0] + 20]
+            pos[0] += 1
+            b = val()
+            ws()
+            assert text[pos[0]] == ')', text[pos[0]:pos[0] + 20]
+            pos[0] += 1
+            return (a, b)
+        if c == '"':
+            j = text.index('"', pos[0] + 1)
+            v = text[pos[0] + 1:j]
+            pos[0] = j + 1
+            return v
+        for w, v in (('true', True), ('false', False)):
+            if text.startswith(w, pos[0]):
+                pos[0] += len(w)
+                return v
+        raise ValueError(text[pos[0]:pos[0] + 30])
+    return val()
+
+
+def retry_renamed(ctx, i, res, maxlen):
+    """Second chance for formula i: match the implementation's auxiliary
+    variables with the model's by their solution columns on sampled
+    sequences, rename, and evaluate the comparison again inside Coq."""
+    case, out = res['case'], res['out']
+    f = totuple(case['formula'])
+    names = case['uservars']
+    u = 'true' if case['until'] else 'false'
+    rng = ctx.rng
+    traces = [[{v: rng.random() < 0.5 for v in names} for _ in range(maxlen)]
+              for _ in range(24)]
+    prob = E.Problem(out, names)
+    impl_cols = {a: [] for a in out['names']}
+    for tr in traces:
+        sol, _, _ = E.solve_one(prob, f, tr)
+        for k, a in enumerate(out['names']):
+            impl_cols[a].append([row[k] for row in sol])
+    trs = '[' + '; '.join(
+        '[' + '; '.join(bl([d[v] for v in names]) for d in tr) + ']'
+        for tr in traces) + ']'
+    printed = ctx.eval_terms(
+        f'ren{i}', HEADER,
+        [f'model_columns true {u} {G.coq_form(f)} {strs(names)} {trs}'])
+    model_cols = dict(parse_coq_value(printed[0]))
+    if len(model_cols) != len(impl_cols):
+        return False
+    # bijection by equal columns (backtracking; a handful of variables)
+    impl_names = list(impl_cols)
+
+    def match(k, used, acc):
+        if k == len(impl_names):
+            return acc
+        a = impl_names[k]
+        # prefer the same name
+        cands = sorted(model_cols, key=lambda m: m != a)
+        for m in cands:
+            if m in used or model_cols[m] != impl_cols[a]:
+                continue
+            r = match(k + 1, used | {m}, acc + [(a, m)])
+            if r is not None:
+                return r
+        return None
+    ren = match(0, frozenset(), [])
+    if ren is None or all(a == m for a, m in ren):
+        return False
+    rl = '[' + '; '.join(f'("{a}", "{m}")' for a, m in ren) + ']'
+    (defs, terms), keys = coq_group(i, res, maxlen)
+    defs = defs.replace(f'Definition I{i} : impl := mkImpl',
+                        f'Definition I{i} : impl := rename_impl {rl} (mkImpl')
+    assert defs.endswith('].')
+    defs = defs[:-1] + ').'
+    terms = [t for t, k in zip(terms, keys) if k in ('names', 'all')]
+    vals = ctx.eval_groups(f'ren{i}', HEADER, [(defs, terms)])
+    return all(vals)
+
+
 def public_case(case):
     return {k: case[k] for k in ('formula', 'source', 'until', 'uservars',
                                  'kind', 'maxw', 'atoms') if k in case}
@@ -351,6 +458,27 @@ def correspond(ctx):
             same_tree += v
         elif not v:
             bad.setdefault(i, []).append(k)
+    # A refactoring of the code may renumber the `_aux` variables without
+    # changing any meaning.  Before reporting a difference, look for a
+    # renaming of the implementation's auxiliary variables onto the model's
+    # (by their values along sampled sequences) under which everything agrees.
+    renamed = 0
+    for i in sorted(bad):
+        res = ok[i]
+        if res['case']['kind'] != 'past':
+            continue
+        try:
+            if retry_renamed(ctx, i, res, maxlen):
+                del bad[i]
+                renamed += 1
+        except Broken as b:
+            ctx.log('renaming fallback failed:', b)
+    ctx.extra['accepted_up_to_renaming_of_aux'] = renamed
+    if renamed:
+        ctx.notes.append(
+            f'{renamed} formulas agree with the model only after renaming the '
+            'auxiliary variables (the code numbers them differently from the '
+            'model)')
     for i, ks in bad.items():
         res = ok[i]
         what = {
